@@ -86,14 +86,22 @@ func (ms *Modules) Read(name string) error {
 }
 
 // Parse parses data as YANG source and adds it to ms.  The name should reflect
-// the source of data.
-// Note: If an error is returned, valid modules might still have been added to
-// the Modules cache.
+// the source of data.  Either every top-level statement of data is added or,
+// when an error is returned, none is: ms is left as it was.
 func (ms *Modules) Parse(data, name string) error {
 	ss, err := Parse(data, name)
 	if err != nil {
 		return err
 	}
+	// Build and check all the statements before adding any of them, so
+	// that a statement that is rejected does not leave the modules that
+	// precede it in the same text behind.
+	type accepted struct {
+		n     Node
+		types *typeDictionary
+	}
+	var nodes []accepted
+	seen := map[string]*Module{}
 	for _, s := range ss {
 		// Typedefs are collected while the AST is built.  Keep them
 		// aside until the node has been accepted, so that a rejected
@@ -103,10 +111,21 @@ func (ms *Modules) Parse(data, name string) error {
 		if err != nil {
 			return err
 		}
-		if err := ms.add(n); err != nil {
+		mod, key, err := ms.checkAdd(n)
+		if err != nil {
 			return err
 		}
-		ms.typeDict.merge(types)
+		if o := seen[key]; o != nil {
+			return fmt.Errorf("duplicate %s at %s and %s", key, Source(o), Source(n))
+		}
+		seen[key] = mod
+		nodes = append(nodes, accepted{n, types})
+	}
+	for _, a := range nodes {
+		if err := ms.add(a.n); err != nil {
+			return err
+		}
+		ms.typeDict.merge(a.types)
 	}
 	return nil
 }
@@ -157,34 +176,46 @@ func GetModule(name string, sources ...string) (*Entry, []error) {
 	return ms.GetModule(name)
 }
 
+// checkAdd reports whether add would accept n, without changing ms.  It returns
+// n as a *Module and the key under which add records it as loaded.
+func (ms *Modules) checkAdd(n Node) (*Module, string, error) {
+	name := n.NName()
+	kind := n.Kind()
+	switch kind {
+	case "module", "submodule":
+	default:
+		return nil, "", fmt.Errorf("not a module or submodule: %s is of type %s", name, kind)
+	}
+	mod := n.(*Module)
+	key := kind + " " + mod.FullName()
+
+	// A duplicate is a node of the same kind, name and revision.  This must
+	// not depend on the load order, so it cannot be decided from the map of
+	// its kind alone: a module without revision loses the bare name to any
+	// later revision.
+	if o := ms.loaded[key]; o != nil {
+		return nil, "", fmt.Errorf("duplicate %s at %s and %s", key, Source(o), Source(n))
+	}
+	return mod, key, nil
+}
+
 // add adds Node n to ms.  n must be assignable to *Module (i.e., it is a
 // "module" or "submodule").  An error is returned if n is a duplicate of
 // a name already added, or n is not assignable to *Module.
 func (ms *Modules) add(n Node) error {
-	var m map[string]*Module
-
-	name := n.NName()
-	kind := n.Kind()
-	switch kind {
-	case "module":
-		m = ms.Modules
-	case "submodule":
-		m = ms.SubModules
-	default:
-		return fmt.Errorf("not a module or submodule: %s is of type %s", name, kind)
+	mod, key, err := ms.checkAdd(n)
+	if err != nil {
+		return err
 	}
-
-	mod := n.(*Module)
+	m := ms.Modules
+	if mod.Kind() == "submodule" {
+		m = ms.SubModules
+	}
+	name := mod.NName()
 	fullName := mod.FullName()
 	mod.Modules = ms
 
-	// A duplicate is a node of the same kind, name and revision.  This must
-	// not depend on the load order, so it cannot be decided from m alone: a
-	// module without revision loses the bare name to any later revision.
-	if o := ms.loaded[kind+" "+fullName]; o != nil {
-		return fmt.Errorf("duplicate %s %s at %s and %s", kind, fullName, Source(o), Source(n))
-	}
-	ms.loaded[kind+" "+fullName] = mod
+	ms.loaded[key] = mod
 	if fullName != name {
 		m[fullName] = mod
 	}
